@@ -137,6 +137,21 @@ CLAIMED = {
              "recorded as histograms only (see DESIGN.md).",
         technique="Rocq proof (finite-domain equivalence with the specification's table, general theorems) + exhaustive differential evaluation + end-to-end matrix",
         design="4 (C09)"),
+    "C03": dict(
+        text="Machine-checked theorems over the model of what device and owner compute at a handover (Fdo/Handover.v on the voucher checks of "
+             "Fdo/Voucher.v): whatever header the device adopts, a voucher stored with that header and the HMAC the device sent verifies against "
+             "the credential the device keeps (header MAC, manufacturer-key hash, GUID, rendezvous info, device info); device and owner "
+             "assemble the same replacement header; agreement is an invariant over any number of reuse/replace rounds and the device-certificate "
+             "hash never changes; the voucher store is written only in the step that accepts Done (server machine). Tied to the code by real "
+             "DI + k rounds of TO0/TO1/TO2 with resale between two deployments and credentials passed through their blob encoding: the model "
+             "recomputes HMAC, credential and replacement header from the owner's session values and is compared with what device and owner "
+             "actually hold; cut points (request lost / response lost / error reply) at every message of DI and TO2, wrong Done nonce, "
+             "failing HMAC, with monitors on credential/store.",
+        note=COMMON_NOTE + "Agreement is proved for the model's header/credential assembly; that the code assembles them from the same parts is what "
+             "the differential runs check. A lost Done2 strands the device (owner replaced, device got no credential): excluded by the "
+             "property's own wording, recorded as a histogram.",
+        technique="Rocq proof (agreement by construction as an invariant over rounds; server-machine gate) + differential correspondence on real handovers and cut points",
+        design="4 (C03), 9"),
     "C20": dict(
         text="Machine-checked theorems over the executable model of protocol.parseDirective/parseURLs/cbor.ArrayShift built on the CBOR "
              "decoder model: totality for every instruction list and role, other-role directives yield the zero directive, invariance under "
